@@ -319,16 +319,22 @@ class Gen:
             return T(name, sort, op='defconst')
         args = [self.term(s, d) for _, s in formals]
         if self.p.get('formals_like_globals') and len(formals) >= 2 and self.draw(st.booleans()):
-            # actuals that mention names equal to *other* formal parameters
-            for j, (_, sj) in enumerate(formals):
-                others = [n for k, (n, sk) in enumerate(formals) if k != j and sk == sj and n in self.s.consts]
-                if others and self.draw(st.booleans()):
-                    v = T(self.pick(others), sj, op='var')
-                    wrap = {'Int': lambda x: app('+', [x, T('1', INT, op='const')], INT),
-                            'Bool': lambda x: app('not', [x], BOOL),
-                            'BV': lambda x: app('bvnot', [x], sj)}.get(sj[0])
-                    args[j] = wrap(v) if wrap and self.draw(st.booleans()) else v
-                    self.s.features.add('actual-mentions-formal-name')
+            # an actual that mentions the name of *another* formal parameter,
+            # while that parameter gets a different actual (simultaneous vs
+            # sequential substitution differ exactly here)
+            pairs = [(j, k) for j, (_, sj) in enumerate(formals) for k, (nk, sk) in enumerate(formals)
+                     if j != k and sj == sk and nk in self.s.consts]
+            if pairs:
+                j, k = self.pick(pairs)
+                sj = formals[j][1]
+                v = T(formals[k][0], sj, op='var')
+                wrap = {'Int': lambda x: app('+', [x, T('1', INT, op='const')], INT),
+                        'Bool': lambda x: app('not', [x], BOOL),
+                        'BV': lambda x: app('bvnot', [x], sj)}.get(sj[0])
+                args[j] = wrap(v) if wrap and self.draw(st.booleans()) else v
+                if self.draw(st.booleans()):
+                    args[k] = self.literal(sj)
+                self.s.features.add('actual-mentions-formal-name')
         return T([name] + [a.plain for a in args], sort, [((i + 1, ), a) for i, a in enumerate(args)], 'defapp')
 
     def p_selector(self, sort, d):
